@@ -4,7 +4,7 @@ from .. import rules_json as RJ
 from .. import rules_lang as RL
 from .. import rules_sev as RS
 
-LEVEL = "proof"
+LEVEL = "other"
 
 EXPLANATION = (
     "Abstract interpretation of as_json() for the four (sort, minimal) combinations into an abstract JSON object "
